@@ -80,6 +80,12 @@ type c04Member struct {
 	// between the two, 8 the pair goes first and the members with a justified complaint speak last, in a later block,
 	// 16 if the member has no deviation its first message is a complaint about a (normally correct) share.
 	Two int `json:"two,omitempty"`
+	// Restart (1..3, members without any deviation): in the block after its round-k message the member's daemon restarts
+	// and does what cylinder/workers/group does on start: it asks the chain (Query/PendingGroups) which groups still wait
+	// for it and redoes the current step of each - for round 1 with a FRESH polynomial and one-time key that replace
+	// its local record. After a submission the query must not list the group, so this is a no-op and the member, which
+	// follows the protocol, must never be blamed.
+	Restart int `json:"restart,omitempty"`
 }
 
 const (
@@ -224,6 +230,17 @@ func genC04(rt *rapid.T) c04Case {
 			}
 			a |= gen.Uniform(rt, "altsub", 256) << 8
 			c.Members[(first+j)%n].Alt = a
+		}
+	}
+	// a daemon restart of a member that does not deviate
+	if gen.Chance(rt, "restartcase", 3, 10) {
+		first := gen.Uniform(rt, "restartwho", n)
+		for j := 0; j < n; j++ {
+			m := &c.Members[(first+j)%n]
+			if m.R1 == "" && m.R2 == "" && m.R3 == "" && !m.Dup1 && !m.Dup2 && !m.Dup3 && m.Alt == 0 {
+				m.Restart = 1 + gen.Pick(rt, "restartstage", 6, 2, 2)
+				break
+			}
 		}
 	}
 	// one member speaks twice in round 3
@@ -372,6 +389,7 @@ type mem struct {
 	attempts int
 	inFlight [4]bool // a well-formed round-k submission was already produced
 	lastMsg  [4]*item
+	restarts int     // daemon restarts that redid a step
 	forceR3  string  // first round-3 message of a member without deviation (Two&twoComplain)
 	altOK    [4]bool // round k: a message with alternatively encoded points was accepted
 	noAlt    [4]bool // round k: the alternative encoding was refused, the member now sends the canonical bytes
@@ -1625,6 +1643,54 @@ func shortLog(log string) string {
 	return log
 }
 
+// pendingFor: does Query/PendingGroups list the group for the account (on the last committed state)?
+func (w *world) pendingFor(a *sim.Account) (bool, error) {
+	resp, err := w.qs.PendingGroups(w.ch.Ctx(), &tsstypes.QueryPendingGroupsRequest{Address: a.Addr.String()})
+	if err != nil {
+		return false, err
+	}
+	for _, g := range resp.PendingGroups {
+		if g == uint64(w.gid) {
+			return true, nil
+		}
+	}
+	return false, nil
+}
+
+// restart: member m's daemon starts again (cylinder/workers/group Round1/2/3.Start -> handlePendingGroups -> handleGroup).
+func (w *world) restart(m *mem) {
+	listed, err := w.pendingFor(m.acct)
+	if err != nil {
+		w.fail("C04/pending-groups-query", "PendingGroups(member %d): %v", m.id, err)
+		return
+	}
+	st := w.chainStatus()
+	w.v.Class(fmt.Sprintf("daemon-restart:round%d", int(st)))
+	if !listed {
+		w.v.Class("daemon-restart:nothing-pending")
+		return
+	}
+	w.v.Class("daemon-restart:redoes-step")
+	var it *item
+	switch st {
+	case tsstypes.GROUP_STATUS_ROUND_1:
+		// Round1.handleGroup: new round-1 data, written over the local record, then sent
+		if it = w.buildR1(m, false); it != nil && it.r1 != nil {
+			m.dkg = store.DKG{GroupID: w.gid, MemberID: m.id, Coefficients: it.r1.coeffs, OneTimePrivKey: it.r1.otPriv}
+			m.dealt = it.r1.dealt
+		}
+	case tsstypes.GROUP_STATUS_ROUND_2:
+		it = w.buildR2(m, false) // Round2.handleGroup: shares from the local record
+	case tsstypes.GROUP_STATUS_ROUND_3:
+		it = w.buildR3(m, false) // Round3.handleGroup
+	}
+	if it != nil {
+		m.restarts++
+		it.label += "+restart"
+		w.push(it)
+	}
+}
+
 // ---- model: what must happen to a submission ---------------------------------------------------------------
 
 func roundOf(kind string) int {
@@ -1895,8 +1961,9 @@ func (w *world) endBlock(res *sim.BlockResult) {
 			asserted = asserted || r.asserted
 		}
 		switch {
-		case mal[m.id] && len(m.reasons) == 0 && m.strict:
-			w.fail("C04/honest-blamed", "member %d followed the protocol and is marked malicious at height %d (n=%d t=%d)", m.id, res.Height, w.n, w.t)
+		case mal[m.id] && m.strict:
+			w.fail("C04/honest-blamed", "member %d followed the protocol and is marked malicious at height %d (n=%d t=%d, daemon restarts %d, complaints involving it: %v)",
+				m.id, res.Height, w.n, w.t, m.restarts, m.reasons)
 		case mal[m.id] && len(m.reasons) == 0:
 			w.fail("C04/blamed-without-cause", "member %d is marked malicious at height %d although no complaint justifies it (n=%d t=%d)", m.id, res.Height, w.n, w.t)
 		case !mal[m.id] && asserted:
@@ -1988,6 +2055,36 @@ func (w *world) endBlock(res *sim.BlockResult) {
 		if got == roundStatus[k] {
 			w.reached[k] = true
 		}
+	}
+	// Query/PendingGroups ("all pending groups that waits the given address to submit a message"; the daemon asks it on
+	// start to learn which DKG step it still owes): the group is listed for a member exactly while the group is in
+	// round k and no round-k message of that member has been accepted
+	for _, m := range w.mems {
+		want := false
+		for k := 1; k <= 3; k++ {
+			if got == roundStatus[k] && !w.cleaned {
+				want = !w.set[k][m.id]
+			}
+		}
+		listed, err := w.pendingFor(m.acct)
+		if err != nil {
+			w.fail("C04/pending-groups-query", "PendingGroups(member %d): %v", m.id, err)
+			return
+		}
+		if listed != want {
+			w.fail("C04/pending-groups-query", "height %d: group status %v, member %d submitted its message of this round = %v, but PendingGroups lists the group = %v (n=%d t=%d)",
+				res.Height, got, m.id, !want, listed, w.n, w.t)
+			return
+		}
+		if listed {
+			w.v.Count("pending_groups_listed", 1)
+		} else {
+			w.v.Count("pending_groups_not_listed", 1)
+		}
+	}
+	if listed, err := w.pendingFor(w.outside); err != nil || listed {
+		w.fail("C04/pending-groups-query", "height %d: PendingGroups lists the group for an account that is not a member (%v)", res.Height, err)
+		return
 	}
 	// round counters = number of accepted submissions (rejected ones leave them unchanged)
 	k, ctx := w.ch.App.TSSKeeper, w.ch.Ctx()
@@ -2237,6 +2334,12 @@ func (w *world) stageActions(stage int) []action {
 		needs := func(mi int) bool { r := w.mems[mi].spec.R1; return r == "replay" || r == "negate" }
 		sort.SliceStable(order, func(a, b int) bool { return !needs(order[a]) && needs(order[b]) })
 	}
+	for _, mi := range order { // a member whose daemon restarts in this round speaks first, the restart comes a block later
+		if w.mems[mi].spec.Restart == stage && w.mems[mi].strict {
+			sort.SliceStable(order, func(a, b int) bool { return order[a] == mi && order[b] != mi })
+			break
+		}
+	}
 	firstVictim := -1
 	if stage == 3 {
 		// Two&twoVictimLate: the member that speaks twice goes first, the protocol-following members with a justified
@@ -2287,6 +2390,9 @@ func (w *world) stageActions(stage int) []action {
 		acts = append(acts, action{what: "main", mi: mi})
 		if []bool{false, sp.Dup1, sp.Dup2, sp.Dup3}[stage] {
 			acts = append(acts, action{what: "dup", mi: mi})
+		}
+		if sp.Restart == stage && w.mems[mi].strict {
+			acts = append(acts, action{what: "cut"}, action{what: "restart", mi: mi})
 		}
 		if stage == 3 && sp.Two&twoOn != 0 && sp.R3 != "stop" {
 			if sp.Two&twoCut != 0 {
@@ -2340,6 +2446,10 @@ func (w *world) enqueue(stage int, a action) {
 	m := w.mems[a.mi]
 	if a.what == "second" {
 		w.push(w.buildSecond(m))
+		return
+	}
+	if a.what == "restart" {
+		w.restart(m)
 		return
 	}
 	dev := []string{"", m.spec.R1, m.spec.R2, m.spec.R3}[stage]
